@@ -173,21 +173,9 @@ func c09sDump(text string) string {
 		insOnly(st.ChunkIns), outsOnly(st.ChunkOuts), res, ret}, "|")
 }
 
-// the harness's copy of parsenum.go roundUpTo (trusted: strconv and this
-// arithmetic): the model keeps the text of the `threads` token, the parser
-// stores roundUpTo(float32, 100) and the formatter prints it with %g
-func c09sCanonThreads(raw string) string {
-	var v float32
-	if i, err := strconv.ParseInt(raw, 10, 64); err == nil {
-		v = float32(i)
-	} else if f, err := strconv.ParseFloat(raw, 32); err == nil {
-		v = float32(f)
-	} else {
-		return "?" + raw
-	}
-	v = c09RoundUpTo(v, 100) // harness/c09.go: the one copy of parsenum.go roundUpTo
-	return fmt.Sprintf("%g", v)
-}
+// the model keeps the text of the `threads` token, the parser stores roundUpTo(float32, 100) and
+// the formatter prints it with %g: the REAL conversion is the oracle (harness/c09.go c09RealThreads)
+func c09sCanonThreads(raw string) string { return c09RealThreads(raw) }
 
 // c09sCanon rewrites the threads word of the model's `some <Stage>` reply
 func c09sCanon(rep string) string {
@@ -318,7 +306,15 @@ var c09sThreads = [][]string{
 	{"1e+06", "1e6", "1000000", "1E+06"}, {"100", "1e2", "100.0"}, {"0", "0.0", "0e0"}, {"-1", "-1.0", "-1e0"}, {"3", "3.0"},
 }
 
+// MB values of generated stages: the whole range of the model's wfMB, |mb| < 2^18 = 256 GB, the range
+// where the exact reading of the model and the float32 reading of the real parser agree on every
+// text formatGB prints (Props.C09.readGB32_inverts_formatGB), with the boundary itself; values from
+// 256 GB on (finding F29) are exercised by the mem_gb stream of harness/c09res.go (up to 2^24 and
+// 2^62 MB, classified gb-float32-rounding).
 func c09sMB(c *Ctx) int64 {
+	if c.Rng.Intn(12) == 0 {
+		return []int64{262143, -262143, 262142, 261121, -261121, 262143 - 1024, 131072, -131073}[c.Rng.Intn(8)]
+	}
 	switch c.Rng.Intn(7) {
 	case 0, 1:
 		return -int64(1 + c.Rng.Intn(1023)) // negative, below 1 GB
@@ -708,6 +704,16 @@ func c09Stage(c0 *Ctx) {
 		}
 	}
 
+	// every text the REAL parser accepted, with its dump (section AcceptedDeclTexts: the range theorem
+	// parse_produces_wf_stage_partial evaluated on the real parser's ASTs at the end of this function)
+	type accText struct{ dump, text string }
+	var accepted []accText
+	accept := func(dump, text string) {
+		if strings.HasPrefix(dump, "some ") {
+			accepted = append(accepted, accText{strings.TrimPrefix(dump, "some "), text})
+		}
+	}
+
 	n := 1500
 	if c.Thorough {
 		n *= 8
@@ -783,6 +789,7 @@ func c09Stage(c0 *Ctx) {
 		}
 		mp := c09sCanon(reps2[2*i])
 		d0 := c09sDump(k.text)
+		accept(d0, k.text)
 		if d0 != mp {
 			mismatch(kParse, "the syntax.Stage read from the model's text differs from the model's parseStage of it", bParse, in, d0, mp)
 		}
@@ -812,6 +819,7 @@ func c09Stage(c0 *Ctx) {
 		}
 		inRe := map[string]interface{}{"stage": k.enc, "text": k.re}
 		mpRe := c09sCanon(reps2[2*i+1])
+		accept(dRe[i], k.re)
 		if dRe[i] != mpRe {
 			mismatch(kParse, "the syntax.Stage read from a respelled stage differs from the model's parseStage of it", bParse, inRe, dRe[i], mpRe)
 		}
@@ -874,6 +882,7 @@ func c09Stage(c0 *Ctx) {
 			r.violate(Violation{Kind: "property", Key: "C09:stage-parser-panic", What: "the parser panics", Input: in, Impl: dNm[i], Expect: "an error or an AST"})
 			continue
 		}
+		accept(dNm[i], x.text)
 		if mp := c09sCanon(reps[i]); dNm[i] != mp {
 			mismatch(kParse, "near-miss text: real parser and model reader disagree", bParse, in, dNm[i], mp)
 		}
@@ -892,4 +901,55 @@ func c09Stage(c0 *Ctx) {
 		property(nms[i].text, dNm[i], "near-miss list")
 	}
 	r.note("stagedecl: %d near misses: %v", len(nms), time.Since(t0).Round(time.Millisecond))
+
+	// ================= accepted texts: the range of the REAL parser =================
+	// Props.C09.parse_produces_wf_stage_partial (section AcceptedDeclTexts) evaluated on the real
+	// parser's dump (threads as Go holds it: %g of roundUpTo(float32, 100), the `h` of the theorem) of
+	// every accepted printed, respelled and near-miss text: hypotheses stageStrsValid (F6b) and
+	// stageMBValid (F25) => wfStage.
+	// the recorded exceptions (F6b, F25) and a non-canonical threads numeral on hand-written texts, so
+	// that the filter is exercised on every run
+	for _, t := range []string{
+		"stage S(src py \"x\",) using (mem_gb = 9007199254740992,)",
+		"stage S(src py \"x\",) using (vmem_gb = -1e30, threads = 007,)",
+		"stage S(src py \"x\",) using (special = \"\\xff\",)",
+		"stage S(src py \"x\\xff y\",)",
+		"stage S(in int a \"\\200\", src py \"x\",) using (threads = 007, memgb = 0.50,)",
+		"stage S(src py \"x\",) using (threads = 0.065, mem_gb = 255.999,)",
+		"stage S(src py \"x\",) using (threads = -0.0,)", // roundUpTo maps the negative zero to 0 (clause `range` of HOK)
+		"stage S(src py \"x\",) using (threads = 1e6, vmem_gb = 1e-9,)",
+		"stage S(src py \"x\",) using (mem_gb = 0.5000000001,)",                     // float32: 512 MB, exactly: 513 MB
+		"stage S(src py \"x\",) using (mem_gb = 256.04296875, vmem_gb = -256.042,)", // F29: beyond stageMB32Valid
+	} {
+		accept(c09sDump(t), t)
+	}
+	t0 = time.Now()
+	reqs = nil
+	for _, a := range accepted {
+		reqs = append(reqs, []string{"C09.stagestrsvalid", a.dump}, []string{"C09.wfstagedecl", a.dump},
+			[]string{"C09.parsestagedecl32", hx(a.text)})
+	}
+	reps = c.Drv.AskBatch(reqs)
+	for i, a := range accepted {
+		hyp, wf := reps[3*i], reps[3*i+1]
+		// parseStage32 (mem_gb / vmem_gb through the float32 rounding of the literal) is the real parser
+		if mp32 := c09sCanon(reps[3*i+2]); mp32 != "some "+a.dump {
+			mismatch(kParse, "the syntax.Stage the real parser reads from an accepted text differs from the model's parseStage32 (the reader with the float32 reading of mem_gb/vmem_gb)",
+				"correspondence C09.parsestagedecl32 (Martian.FormatStage.parseStage32 vs the grammar's stage production)",
+				map[string]interface{}{"text": a.text}, "some "+a.dump, mp32)
+		}
+		if !strings.HasPrefix(hyp, "strs=") || !strings.HasPrefix(wf, "wf=") {
+			r.hist("stagedecl:accepted:dump-not-decoded") // e.g. a resource value that is not a whole number of MB
+			continue
+		}
+		r.hist("stagedecl:accepted:" + strings.ReplaceAll(hyp, " ", ",") + "," + wf)
+		r.count("stagedeclacc:"+a.dump, true)
+		if strings.HasPrefix(hyp, "strs=true mb=true mb32=true") && wf != "wf=true" { // hypothesis stageMB32Valid (F29's range = wfMB; F25 subsumed)
+			r.violate(Violation{Kind: "correspondence", Key: "C09:accepted-decl-not-wf",
+				What:  "the real parser accepts a stage text whose AST satisfies the exception hypotheses (stageStrsValid, stageMB32Valid) but not wfStage (the range theorem evaluated on the real parser's result)",
+				Input: map[string]interface{}{"text": a.text, "kind": "stage"}, Impl: a.dump, Model: hyp + " " + wf,
+				Broken: "Props.C09.parse_produces_wf_stage_partial (AcceptedDeclTexts)"})
+		}
+	}
+	r.note("stagedecl: hypotheses and wfStage of %d accepted texts: %v", len(accepted), time.Since(t0).Round(time.Millisecond))
 }
